@@ -217,28 +217,46 @@ Definition oclose (impl : option Q) (model : option Q) : bool :=
   end.
 
 (* one case: the part as built through the public API (time signatures without musical beats +
-   the beat operations applied), and per integer position the five observed values:
-   (t, quarter_map t, beat_map t, inv_quarter_map (quarter_map t), inv_beat_map (beat_map t), quarter_duration_map t);
-   the forward values are fed to the model's inverse as the exact rationals they are *)
+   the beat operations applied); per integer position the observed values
+   (t, quarter_map t, beat_map t, inv_quarter_map (quarter_map t), inv_beat_map (beat_map t), quarter_duration_map t)
+   -- the forward values are fed to the model's inverse as the exact rationals they are --
+   and per probe value v: (v, inv_quarter_map v, inv_beat_map v) *)
 Definition c02_case : Type :=
   (Z * Z * list (Z * Z) * list (Z * Z * Z) * option (Z * Z) * list beat_op *
-   list (Z * option Q * option Q * option Q * option Q * Z))%type.
+   list (Z * option Q * option Q * option Q * option Q * Z) *
+   list (Q * option Q * option Q))%type.
 
 Definition build (c : c02_case) : tmode * part :=
-  let '(first, last, qs, tss, m1, ops, _) := c in
+  let '(first, last, qs, tss, m1, ops, _, _) := c in
   let '(flag, tss') := beat_run tss ops in
   ((if flag then Musical else Beat), mk_part first last qs tss' m1).
 
-Definition inv_ok (m : tmode) (p : part) (fwd inv : option Q) : bool :=
-  match fwd with
-  | Some v => oclose inv (tinv m p v)
-  | None => match inv with None => true | _ => false end
+(* inverse applied to the implementation's forward value v; when v is a rounding error outside
+   the model's range (possible at the two ends only) the result must be close to t itself *)
+Definition inv_ok (ipts : list (Q * Q)) (t : Z) (fwd inv : option Q) : bool :=
+  match fwd, inv with
+  | Some v, Some w =>
+      match interp ipts v with
+      | Some w' => close w w'
+      | None => close w (inject_Z t)
+      end
+  | None, None => true
+  | _, _ => false
   end.
 
 Definition check_case (c : c02_case) : bool :=
   let '(bm, p) := build c in
-  let '(_, _, _, _, _, _, obs) := c in
+  let '(_, _, _, _, _, _, obs, probes) := c in
+  let qp := time_pts Quarter p in
+  let bp := time_pts bm p in
+  let qpi := swap_pts qp in
+  let bpi := swap_pts bp in
   forallb (fun o =>
     let '(t, qv, bv, iq, ib, qd) := o in
-    oclose qv (tmapz Quarter p t) && oclose bv (tmapz bm p t) &&
-    inv_ok Quarter p qv iq && inv_ok bm p bv ib && (qd =? qd_map p t)) obs.
+    oclose qv (interp qp (inject_Z t)) && oclose bv (interp bp (inject_Z t)) &&
+    inv_ok qpi t qv iq && inv_ok bpi t bv ib && (qd =? qd_map p t)) obs &&
+  forallb (fun o =>
+    let '(v, iq, ib) := o in oclose iq (interp qpi v) && oclose ib (interp bpi v)) probes.
+
+(* check_case evaluates the maps of the theorems: tmapz m p t = interp (time_pts m p) (inject_Z t),
+   tinv m p v = interp (swap_pts (time_pts m p)) v, by definition *)
